@@ -113,7 +113,15 @@ func c37Pow(b, e int64) *big.Int { return new(big.Int).Exp(big.NewInt(b), big.Ne
 
 // coefficient as "num den": small, huge, near 0, near 1, perfect powers, out of domain
 func c37F(r *Rand, m int) string {
-	switch r.Intn(14) {
+	switch r.Intn(16) {
+	case 14, 15: // 1-f tiny and not a perfect m-th power: (1-f)^sigma far below 2^-512
+		k := int64(600 + r.Intn(3000))
+		if m > 1 && k%int64(m) == 0 {
+			k++
+		}
+		d := c37Pow(2, k)
+		c := int64(1 + 2*r.Intn(2)) // 1 or 3
+		return new(big.Int).Sub(d, big.NewInt(c)).String() + " " + d.String()
 	case 0:
 		return "1 20"
 	case 1:
@@ -176,7 +184,12 @@ func c37Stakes(r *Rand, small bool) (uint64, uint64, int) {
 		}
 		return g * uint64(n), g * uint64(m), m
 	}
-	switch r.Intn(6) {
+	switch r.Intn(7) {
+	case 6: // medium reduced denominator: still certified exactly
+		m := 49 + r.Intn(350)
+		n := 1 + r.Intn(m)
+		g := 1 + r.U64()%((^uint64(0))/uint64(m))
+		return g * uint64(n), g * uint64(m), m
 	case 0:
 		return r.EdgeU64(), r.EdgeU64(), 1
 	case 1: // tiny ratio
